@@ -209,7 +209,7 @@ structure TraceKeyOk (big128 : Bool) (N b S rk : Nat) (sk : List Poly) (key : Ks
 theorem convIn_same (a : Ks.Ct) (key : Ks.Key) (h : a.base2k = key.base2k) : Ks.convIn a key = .ok a := by
   unfold Ks.convIn; rw [if_neg (not_not.mpr h)]
 
-theorem convSize_same (a : Ks.Ct) (key : Ks.Key) (h : a.base2k = key.base2k) : convSize a key = a.size := by
+theorem convSize_same_radix (a : Ks.Ct) (key : Ks.Key) (h : a.base2k = key.base2k) : convSize a key = a.size := by
   unfold convSize; rw [if_neg (not_not.mpr h)]
 
 /-- the coefficient-wise relation of `glwe_rsh 1` divided by `2^M`: `2·V' = V + e' + q·2·2^M`, `|e'| ≤ 2·(1+‖s‖₁)` -/
@@ -265,7 +265,7 @@ theorem trace_level_decrypts (big128 : Bool) (N : Nat) (res : Ks.Ct) (key : Ks.K
     have : (2 : Int) ^ (b - 1) ≤ 2 ^ 61 := pow_le_pow_right₀ (by norm_num) (by omega)
     linarith
   have hconv : Ks.convIn r1 key = .ok r1 := convIn_same r1 key (by rw [hb1, hkb])
-  have hcs : convSize r1 key = S := by rw [convSize_same r1 key (by rw [hb1, hkb]), hsz1]
+  have hcs : convSize r1 key = S := by rw [convSize_same_radix r1 key (by rw [hb1, hkb]), hsz1]
   have hrout' : r1.rank + 1 = key.mat.colsOut := by
     rw [hrk1, hk.hrout]; have := hk.hc0; unfold Ks.Key.rankOut; omega
   have hprod := prodOf_conv_bound N r1.rank r1 key (2 ^ (b - 1)) Dm hw1 hrout' hk.hD (by rw [hb1]; exact hb0) (by rw [hb1]; exact hb62)
